@@ -45,6 +45,16 @@
   9. "The posterior sample exported after any step reproduces, on the training experiments, the sampler's fitted values
      and its noise precision"                                                         `C08_export_reproduces`
        harness-only: the exported arrays are copies (aliasing is not expressible in a functional model).
+  Added after later rounds of seeded changes (`Props/C08Regress.lean`):
+    clause 7 at unit level (S6-C08): `C08_every_unit_drawn_once` — every sample index gets exactly one `W` and one `W0` draw, every
+      treatment index exactly one `V2`, `V1`, `V0` draw per sweep, with or without data (the draw-site list depends on the sizes only)
+    clause 8 (S7-C08): the draw is `Q⁻¹b + U⁻¹z` for EVERY size incl. 1: `C08_mvn_sample_chol`; in closed form for 1×1:
+      `C08_mvn_1x1` (`z/√q + b/q`)
+    clause 4 (S5-C08): the intercept is the mean of ALL rows held after any sequence of instalments: `C08_alpha_instalments`,
+      `C08_alpha_instalment_list`
+    Regression (not a clause): `C08_S6_data_only_loop_skips_unit` — `_W_step` looping over the samples with data skips a no-data sample
+    Regression (not a clause): `C08_S7_fast_path_wrong_scale` — 1×1 fast path with noise `z/q` returns 1/4 instead of 1/2 for q = 4
+    Regression (not a clause): `C08_S5_cached_mean_is_stale` — intercept memoised at the first call ignores the second instalment
   Quantifier: all datasets / embedding sizes / states along any number of steps — every theorem is for arbitrary `dt`, `D`,
   start state and choice logs; reachable states: `C08_reachable_pos`, `C08_reachable_gauss_states`; samples / treatments
   without data: `C08_block_nodata`, the no-data branch of `C08_block_W0/V0`, `C08_gamma_prec_nodata`.
